@@ -382,9 +382,8 @@ def scalarKernel (f : AggFn) (sel : List Value) : Except Err Res :=
         | .error e => .error e
         | .ok (s, n) =>
           match v with
-          | .null => .ok (s, n)
           | .int i => .ok (s + i, n + 1)
-          | _ => .error .unsupported
+          | _ => .ok (s, n)          -- NULL and non-numeric values are skipped
       match sel.foldl step (.ok (0, 0)) with
       | .error e => .error e
       | .ok (s, n) =>
